@@ -74,10 +74,27 @@ Definition final_prod_lens (s : src) : list N :=
 Inductive refusal :=
 | RRules | RTokens | RProds | RSymbols          (* grammar.rs:150-165 "StorageT is not big enough …" *)
 | RPager | RGc                                  (* pager.rs:259, :300   "… this stategraph" *)
-| RStateGraph                                   (* stategraph.rs:26  assert! *)
-| RStateTable                                   (* statetable.rs:208 assert! *)
+| RStateGraph                                   (* stategraph.rs:26  `if len >= MAX { panic!("… this stategraph") }`
+                                                   (a bare assert! before /repo 394c6e3) *)
+| RStateTable                                   (* statetable.rs:208 `if len >= MAX - 1 { panic!("… this stategraph") }`
+                                                   (a bare assert! before /repo 394c6e3) *)
 | RLexRule.                                     (* lrlex parser.rs:495 try_from … panic *)
 Inductive verdict := Pass | Refuse (r : refusal).
+
+(* the panic text a refusal is raised with (the classes of checks/C20.py refusal_class):
+   "StorageT is not big enough to store this grammar's rules / tokens / productions /
+   the symbols of at least one of this grammar's productions", "… to store this
+   stategraph." — ONE text for all four state-count sites —, and the lexer's try_from
+   message *)
+Inductive message := MRules | MTokens | MProds | MSymbols | MStategraph | MLexRule.
+Definition message_of (r : refusal) : message :=
+  match r with
+  | RRules => MRules | RTokens => MTokens | RProds => MProds | RSymbols => MSymbols
+  | RPager | RGc | RStateGraph | RStateTable => MStategraph
+  | RLexRule => MLexRule
+  end.
+Definition refused_with (v : verdict) : option message :=
+  match v with Pass => None | Refuse r => Some (message_of r) end.
 
 Definition passes (v : verdict) : bool := match v with Pass => true | Refuse _ => false end.
 
@@ -102,8 +119,9 @@ Fixpoint pager_add (w : N) (adds : nat) (len : N) : verdict * N :=
   | S k => if max_value w <=? len then (Refuse RPager, len) else pager_add w k (len + 1)
   end.
 
-(* pager.rs:300, stategraph.rs:26, statetable.rs:208 (the latter compares StorageT values:
-   all_states_len() is already narrowed, and `max_value - one` is StorageT arithmetic) *)
+(* pager.rs:300 (`> MAX` after gc), stategraph.rs:26 (`>= MAX`), statetable.rs:208 (`>= MAX - 1`;
+   it compares StorageT values: all_states_len() is already narrowed, and `max_value - one`
+   is StorageT arithmetic).  The three limits differ by one and two; all print the same text. *)
 Definition state_guards (w : N) (pre post : N) : verdict :=
   match pager_add w (N.to_nat (pre - 1)) 1 with
   | (Refuse r, _) => Refuse r
